@@ -61,8 +61,11 @@ Definition matrix_domain : list cell :=
 (* The cells in which the current code lets the violation through (findings F1, F2):
    a chunk built by the raw constructor around data of another dtype, for every plugin kind that
    can return chunks; a mislabelled chunk from a down-chunking plugin. *)
-Definition is_escape (k : pkind) (vk : Z) : bool :=
-  (vk =? VK_DTYPE_RAW) || ((vk =? VK_LABEL) && match k with KDown => true | _ => false end).
+Definition is_escape_gen (fx : bool) (k : pkind) (vk : Z) : bool :=
+  negb fx && ((vk =? VK_DTYPE_RAW) || ((vk =? VK_LABEL) && match k with KDown => true | _ => false end)).
+
+(* for the code /repo currently carries: no cell escapes once REPAIRED_F1F2 = true *)
+Definition is_escape := is_escape_gen REPAIRED_F1F2.
 
 Definition good_domain : list cell :=
   flat_map (fun k => flat_map (fun nr : nat * nat => flat_map (fun rechunk => map (fun ga =>
